@@ -76,3 +76,52 @@ for _s, _p in (((1, 1), (1, 0)), ((2, 0), (0, 1))):
     CASES.append(C01.dxdtf_case(_s, _p, prop="C03"))
 CASES.append(apply_reaction_case(True))
 CASES.append(apply_reaction_case(False))
+
+
+# ---- engine side (real C++ through vc/cppsym) ---------------------------------------------------------------------
+# stochastic writers: the flag consulted is the one of the very entry written, flagged entries are exempt, nothing else changes;
+# propensities never read the flag (a flagged entry still reacts and diffuses out); deterministic engine: derivative 0 for a
+# flagged entry (hence x + 0 x dt), unflagged ones follow the rate law; tau-leap: no store into a flagged entry
+try:
+    import z3 as _z3
+    from vc.cppsym import contracts as _K
+    from vc.cppsym.interp import Frame as _Frame
+except ImportError:
+    _z3 = None
+
+
+def no_store_into_flagged_case(cls):
+    P = "C03/%s::Iterate" % cls
+
+    def run(api):
+        from props import C11
+        prog = C11.program()
+        I = _K.make_interp(prog, api.ctx, "C03", loop_inv=_K.LOOP_INV)
+        o = _K.valid_object(I, cls)
+        _K.assume_content_invariants(I, o)
+        ch = o.fields["mesh_chstt"].arr
+        old = I.store_checks.get("mesh_x")
+
+        def chk(I_, o_, fr, v, idx):
+            mine = _z3.Select(ch, idx) == 0
+            prev = old(I_, o_, fr, v, idx) if old else None
+            return mine if prev is None else _z3.And(prev, mine)
+        I.store_checks = dict(I.store_checks)
+        I.store_checks["mesh_x"] = chk
+        fn, _ = prog.method(cls, "Iterate")
+        I.call(fn, o, [], fn, _Frame("top"))
+        api.ctx.oblige(P + "/chemostat-map-not-written", o.fields["mesh_chstt"].arr == ch)
+
+    return Case("engine/%s/no-store-into-a-flagged-entry" % cls, run, functions=["%s::Iterate (+ inlined callees)" % cls],
+                conc=False, max_paths=4000)
+
+
+if _z3 is not None:
+    from props import C07 as _C07, C02 as _C02
+    for _c in ("Gillespie3D", "GillespieGraph"):
+        CASES += [_C07.apply_reaction_case(_c, "C03"), _C07.apply_diffusion_case(_c, "C03"),
+                  _C07.reaction_prop_case(_c, "C03"), _C07.diffusion_prop_case(_c, "C03"), no_store_into_flagged_case(_c)]
+    for _c in ("TauLeap3D", "TauLeapGraph"):
+        CASES.append(no_store_into_flagged_case(_c))
+    for _c in ("Euler3D", "EulerGraph"):
+        CASES += [_C02.compute_dxdt_case(_c, "C03"), _C02.apply_dxdt_case(_c, "C03")]
